@@ -69,6 +69,8 @@ def translate_c_to_projectq(source_circuit):
         elif gate.name in {"RX", "RY", "RZ", "PHASE"}:
             projectq_circuit += f"{GATE_PROJECTQ[gate.name]}({gate.parameter}) | Qureg[{gate.target[0]}]\n"
         elif gate.name in {"CNOT"}:
+            if len(gate.control) > 1:
+                raise ValueError(f"Multi-controlled gates not supported on backend projectQ. Gate {gate.name} with controls {gate.control} is not allowed")
             projectq_circuit += f"{GATE_PROJECTQ[gate.name]} | ( Qureg[{gate.control[0]}], Qureg[{gate.target[0]}] )\n"
         else:
             raise ValueError(f"Gate '{gate.name}' not supported on backend projectQ")
